@@ -17,7 +17,8 @@ SHAPE_WALL_S = {'quick': 100, 'thorough': 600}
 FAMILY = ('PIPE, relational: the same program once with a macro invocation and once with the invocation replaced by its '
           'hand-written expansion, both through the real assembler in one symbolic run; macro definitions with 1..3 steps, '
           '2 variants, @ARG/@REG/@OP placeholders, a step that is not a whole number of bytes, steps with relative-address '
-          'operands, backward and forward label operands; unfillable placeholders must be rejected')
+          'operands, backward and forward label operands; unfillable placeholders must be rejected; plus seeded random macros '
+          '(1..3 steps over 9 instruction forms, placeholders drawn per operand kind) expanded by an independent textual expander')
 BOUNDS = {'operand values': 'within and just outside the field range', 'origin': '0x100..0x7000',
           'opcode / operand codes': 'any value of the field', 'macro catalogue': 'hand-written (enumerated)'}
 ASSUMPTIONS = ['the expansion of each catalogue entry is written by hand from the macro definition (placeholders replaced by '
@@ -168,4 +169,95 @@ def shapes(tier, seed):
         S.append(PairShape(sid, config=base_isa(cs), macro_src=m, expanded_src=x, expect=expect))
     for sid, m in REJECTS:
         S.append(RejectMacro('reject:' + sid, config=base_isa({}), macro_src=m, expanded_src='nop'))
+    return S + random_shapes(tier, seed)
+
+
+# ---- seeded random macros: expansion by an independent textual expander written from the statement -----------------
+def expand(step, operands):
+    """operands: list of dicts {kind: reg|imm|mem, text, arg, reg}"""
+    out = step
+    for i, op in enumerate(operands):
+        out = out.replace(f'@ARG({i})', op.get('arg') or '')
+        out = out.replace(f'@REG({i})', op.get('reg') or '')
+        out = out.replace(f'@OP({i})', op['text'])
+    return out
+
+
+def random_macro(rnd):
+    import random as _r
+    sigs = [(['regs', 'imm8'], ['reg', 'imm']), (['regs', 'mem'], ['reg', 'mem']), (['imm16'], ['imm']),
+            (['regs', 'regs'], ['reg', 'reg']), ([], []), (['regs', 'imm16'], ['reg', 'imm'])]
+    sets, kinds = rnd.choice(sigs)
+    ops = []
+    nv = 0
+    for k in kinds:
+        if k == 'reg':
+            r = rnd.choice(['ra', 'rb'])
+            ops.append({'kind': 'reg', 'text': r, 'reg': r})
+        elif k == 'imm':
+            nv += 1
+            t = rnd.choice([f'v{nv}', f'v{nv} + 1', f'LSB(v{nv})', 'post', 'pre + 2'])
+            ops.append({'kind': 'imm', 'text': t, 'arg': t})
+        else:
+            nv += 1
+            t = rnd.choice([f'v{nv}', f'v{nv}+2', 'post'])
+            ops.append({'kind': 'mem', 'text': f'[{t}]', 'arg': t})
+    regs = [i for i, o in enumerate(ops) if o['kind'] == 'reg']
+    nums = [i for i, o in enumerate(ops) if o['kind'] in ('imm', 'mem')]
+
+    def reg_ph():
+        if regs and rnd.random() < 0.8:
+            i = rnd.choice(regs)
+            return rnd.choice([f'@REG({i})', f'@OP({i})'])
+        return rnd.choice(['ra', 'rb'])
+
+    def num_ph(small=False):
+        if nums and rnd.random() < 0.8:
+            i = rnd.choice(nums)
+            base = f'@ARG({i})'
+            if ops[i]['kind'] == 'imm' and rnd.random() < 0.4:
+                base = f'@OP({i})'
+            return rnd.choice([base, base, f'{base} + 1', f'LSB({base})' if small else base])
+        return rnd.choice(['5', 'post', '$20'])
+
+    def mem_ph():
+        mems = [i for i, o in enumerate(ops) if o['kind'] == 'mem']
+        if mems and rnd.random() < 0.6:
+            return f'@OP({rnd.choice(mems)})'
+        return f'[{num_ph()}]'
+    steps = []
+    for _ in range(rnd.randint(1, 3)):
+        ins = rnd.choice(['n4', 'n12', 'nop', 'ldi', 'ldw', 'ldm', 'add', 'jr', 'jre'])
+        if ins in ('n4', 'n12', 'nop'):
+            steps.append(ins)
+        elif ins == 'ldi':
+            steps.append(f'ldi {reg_ph()}, {num_ph(small=True)}')
+        elif ins == 'ldw':
+            steps.append(f'ldw {reg_ph()}, {num_ph()}')
+        elif ins == 'ldm':
+            steps.append(f'ldm {reg_ph()}, {mem_ph()}')
+        elif ins == 'add':
+            steps.append(f'add {reg_ph()}, {reg_ph()}')
+        else:
+            steps.append(f'{ins} {num_ph()}')
+    mdef = {'instructions': steps}
+    if sets:
+        mdef['operands'] = {'count': len(sets), 'operand_sets': {'list': sets}}
+    invocation = 'mm' + (' ' + ', '.join(o['text'] for o in ops) if ops else '')
+    expansion = '\n'.join(expand(s, ops) for s in steps)
+    consts = {f'v{i}': rnd.choice([vrange(8), vrange(16), (0, 300)]) for i in range(1, nv + 1)}
+    return mdef, invocation, expansion, consts
+
+
+def random_shapes(tier, seed):
+    import random
+    rnd = random.Random(1000 + seed)
+    S = []
+    for i in range(40 if tier == 'quick' else 900):
+        mdef, inv, exp, consts = random_macro(rnd)
+        cfg = base_isa(consts)
+        cfg['macros'] = {'mm': [mdef]}
+        label = rnd.random() < 0.4
+        S.append(PairShape(f'rnd:{seed}:{i}:{inv} => {exp.replace(chr(10), " / ")}', config=cfg,
+                           macro_src=('lab: ' if label else '') + inv, expanded_src=('lab: ' if label else '') + exp, expect=[]))
     return S
